@@ -6,25 +6,28 @@ Import ListNotations.
 Local Open Scope Z_scope.
 
 Lemma gen_methods_are_model :
+  (forall fuel uid infos l, wf_dict infos -> opt_of (gen_record fuel uid infos l) = lb_record fuel uid infos l) /\
   (forall i l, gen_pop i l = lb_pop i l) /\
   (forall i l, gen_delitem (KInt i) l = lb_delitem i l) /\
   (forall a b c l, gen_delitem (KSlice a b c) l = lb_delslice a b c l) /\
   (forall l, gen_stream l = lb_stream l) /\
   (forall names l, gen_select names l = (l, Ok (lb_select names l))).
 Proof.
-  repeat split; [apply gen_pop_eq|apply gen_delitem_int_eq|apply gen_delitem_slice_eq|apply gen_stream_eq|apply gen_select_eq].
+  repeat split; [apply gen_record_eq|apply gen_pop_eq|apply gen_delitem_int_eq|apply gen_delitem_slice_eq|apply gen_stream_eq|apply gen_select_eq].
 Qed.
 
-Lemma gen_history_is_model : forall h s,
+(* wf_hist h: the keyword dictionaries of the record operations have distinct keys at every level (wf_dict), as
+   every Python dict has *)
+Lemma gen_history_is_model : forall h s, wf_hist h ->
   gen_run s h = run s h /\ gen_final s h = final s h /\ gen_outs s h = outs s h.
-Proof. intros; repeat split; [apply gen_run_eq|apply gen_final_eq|apply gen_outs_eq]. Qed.
+Proof. intros; repeat split; [apply gen_run_eq|apply gen_final_eq|apply gen_outs_eq]; auto. Qed.
 
-Lemma gen_records_in_order : forall h : list op,
+Lemma gen_records_in_order : forall h : list op, wf_hist h ->
   let l := st_lb (gen_final init_state h) in
   StronglySorted lt (ids l) /\
   forall u e, In (u, e) (recs l) ->
     exists infos, nth_error (recorded h) u = Some infos /\ e = scalars infos.
-Proof. intro h. cbv zeta. rewrite gen_final_eq. exact (records_in_order h). Qed.
+Proof. intros h W. cbv zeta. rewrite gen_final_eq by auto. exact (records_in_order h). Qed.
 
 Lemma gen_select_columns : forall (l : lb) (names : list name),
   (forall nm, names = [nm] -> gen_select names l = (l, Ok (Sel1 (column nm l)))) /\
@@ -36,16 +39,16 @@ Proof.
 Qed.
 
 Lemma gen_chapter_aligned : forall S h path c,
-  uniform S h ->
+  wf_hist h -> uniform S h ->
   find_path path (st_lb (gen_final init_state h)) = Some c ->
   let l := st_lb (gen_final init_state h) in
   ids c = ids l /\
   (forall u e e', In (u, e) (recs l) -> In (u, e') (recs c) ->
      forall k z, lookup k e = Some z -> lookup k e' = Some z).
-Proof. intros S h path c U. cbv zeta. rewrite gen_final_eq. intro F. exact (chapter_aligned S h path c U F). Qed.
+Proof. intros S h path c W U. cbv zeta. rewrite gen_final_eq by auto. intro F. exact (chapter_aligned S h path c U F). Qed.
 
 Lemma gen_delete_exact_index : forall S h i,
-  uniform S h ->
+  wf_hist h -> uniform S h ->
   let s := gen_final init_state h in
   let l := st_lb s in
   let n := zlen (recs l) in
@@ -57,10 +60,10 @@ Lemma gen_delete_exact_index : forall S h i,
        aligned (st_next s) l') /\
   (~ (- n <= i < n) ->
      gen_step s (ODelItem i) = (s, OErr IndexError) /\ gen_step s (OPop (Some i)) = (s, OErr IndexError)).
-Proof. intros S h i U. cbv zeta. rewrite gen_final_eq, !gen_step_eq. exact (delete_index_exact S h i U). Qed.
+Proof. intros S h i W U. cbv zeta. rewrite gen_final_eq, !gen_step_eq by (auto; exact I). exact (delete_index_exact S h i U). Qed.
 
 Lemma gen_delete_exact_slice : forall S h a b st,
-  uniform S h ->
+  wf_hist h -> uniform S h ->
   let s := gen_final init_state h in
   let l := st_lb s in
   (match st with Some 0 => False | _ => True end ->
@@ -68,16 +71,16 @@ Lemma gen_delete_exact_slice : forall S h a b st,
        recs l' = del_positions (slice_idx a b (match st with None => 1 | Some x => x end) (zlen (recs l))) (recs l) /\
        aligned (st_next s) l') /\
   (st = Some 0 -> gen_step s (ODelSlice a b st) = (s, OErr ValueError)).
-Proof. intros S h a b st U. cbv zeta. rewrite gen_final_eq, !gen_step_eq. exact (delete_slice_exact S h a b st U). Qed.
+Proof. intros S h a b st W U. cbv zeta. rewrite gen_final_eq, !gen_step_eq by (auto; exact I). exact (delete_slice_exact S h a b st U). Qed.
 
 Lemma gen_stream_delivers_pending : forall S h,
-  uniform S h ->
+  wf_hist h -> uniform S h ->
   let s := gen_final init_state h in
   (forall d hf, snd (gen_step s OStream) = OText d hf ->
      d = skipn (Z.to_nat (buff (st_lb s))) (ids (st_lb s)) /\ hf = (buff (st_lb s) =? 0) && logh (st_lb s)) /\
   (recs (st_lb s) <> [] -> exists d hf, snd (gen_step s OStream) = OText d hf).
 Proof.
-  intros S h U. cbv zeta. rewrite gen_final_eq, !gen_step_eq. split.
+  intros S h W U. cbv zeta. rewrite gen_final_eq, !gen_step_eq by (auto; exact I). split.
   - intros d hf H. exact (stream_delivers_pending S h d hf U H).
   - exact (stream_no_loss S h U).
 Qed.
